@@ -1,2 +1,82 @@
-From GB Require Import Bucket Gc.
-Example C05_placeholder : True. Proof. exact I. Qed.
+(* C05 -- GC running beside live traffic loses no acknowledged write.
+   Property theorems only; proofs live in proofs/GcSplitProofs.v, GcIntrProofs.v. *)
+From Coq Require Import NArith ZArith List Bool String.
+From GB Require Import Consts Words Hash HintFile Compress Bucket BucketOpen Gc GcSplit CheckL2 CheckGcSplit
+     Refine GcTouch LogMono GcSplitProofs GcIntrProofs.
+Import ListNotations.
+Open Scope N_scope.
+
+(* The GC record step is split where a client can overtake it (model/GcSplit.v): phase 1 = newest-check and
+   copy, phase 2 = tree repoint + hint / collision-table update performed on the bucket AS IT IS THEN.
+   Run back to back the two phases are exactly the sequential GC step that the correspondence check replays. *)
+Theorem C05_split_is_gc_step : forall cf hf begin_ src st e,
+  gc_record cf hf begin_ src st e = gc_record_split cf hf begin_ src st e.
+Proof. exact gc_record_split_eq. Qed.
+Print Assumptions C05_split_is_gc_step.
+
+Theorem C05_pass_with_no_insertion_is_gc_pass : forall lc b begin_ end_ merge,
+  gc_pass_i lc b begin_ end_ merge None =
+  (fst (gc_pass (l_cfg lc) (forced_hash (l_forced lc)) b begin_ end_ merge),
+   snd (gc_pass (l_cfg lc) (forced_hash (l_forced lc)) b begin_ end_ merge), None, None).
+Proof. exact gc_pass_i_none. Qed.
+Print Assumptions C05_pass_with_no_insertion_is_gc_pass.
+
+(* (1) For ALL bucket states, ALL relocations and ALL client writes of a key not involved in a hash collision
+   that land between GC's copy and GC's index update -- GC never collects the head file (C17), the client's
+   version is newer -- the lookup of the key after GC's update is the one the client's write installed
+   (version, value hash, position), the client's record is still at that position, and GC's update touched
+   no data file. *)
+Theorem C05_write_during_gc_survives : forall cf b m r' vh',
+  layout_ok b -> ct_has_hash (b_ctab b) (mv_h m) = false ->
+  (p_chunk (mv_old m) < b_head b)%nat ->
+  (Z.abs (d_ver (mv_rec m)) < Z.abs (d_ver r'))%Z ->
+  let b' := bkt_set cf b (mv_h m) r' vh' in
+  let b'' := gc_record_finish_gen true cf b' m in
+  (exists p, bkt_get_mem b' (mv_h m) (d_key r') = Some (d_ver r', vh', p) /\ log_find b' p = Some r' /\
+             bkt_get_mem b'' (mv_h m) (d_key r') = Some (d_ver r', vh', p) /\ log_find b'' p = Some r') /\
+  dat b'' = dat b'.
+Proof. exact write_during_gc_survives. Qed.
+Print Assumptions C05_write_during_gc_survives.
+
+(* (2) The general form, collision table included: whatever get's lookup of the key returns after the
+   client's write -- table entry first, tree slot otherwise -- GC's update leaves it alone as soon as it
+   no longer points at the relocated record and carries a newer version. *)
+Theorem C05_finish_keeps_lookup : forall cf b m key ver vh p,
+  bkt_get_mem b (mv_h m) key = Some (ver, vh, p) ->
+  (ct_has_hash (b_ctab b) (mv_h m) = true -> ct_get (b_ctab b) (mv_h m) key <> None) ->
+  p <> mv_old m -> (Z.abs (d_ver (mv_rec m)) < Z.abs ver)%Z ->
+  bkt_get_mem (gc_record_finish_gen true cf b m) (mv_h m) key = Some (ver, vh, p) /\
+  dat (gc_record_finish_gen true cf b m) = dat b.
+Proof. exact finish_keeps_lookup. Qed.
+Print Assumptions C05_finish_keeps_lookup.
+
+(* its side condition is what every client write establishes *)
+Theorem C05_write_enters_table : forall cf b h r vh,
+  let b' := bkt_set cf b h r vh in
+  ct_has_hash (b_ctab b') h = true -> ct_get (b_ctab b') h (d_key r) <> None.
+Proof. exact bkt_set_covers. Qed.
+Print Assumptions C05_write_enters_table.
+
+(* the source carries both conditions these theorems are about (flags regenerated from store/gc.go and
+   store/collision.go on every run) *)
+Theorem C05_source_is_conditional : gc_repoint_conditional = true /\ gc_collision_update_versioned = true.
+Proof. split; reflexivity. Qed.
+
+(* the code before the repairs is refuted: F20 (unconditional repoint) and F22 (forced table update) *)
+Theorem C05_unconditional_repoint_refuted :
+  let b := tree_put bucket0 7 (mkSlot (mkPos 2 0) 2 0) in
+  let m := mkMove 7 (mkD [107] [118] 0 1 0 1) (mkPos 0 256) (mkPos 0 0) 0 true in
+  let cf := mkCfg 512 4096 16 false 3 false 1 in
+  bkt_get_mem b 7 [107] = Some (2%Z, 0, mkPos 2 0) /\
+  bkt_get_mem (gc_record_finish_gen false cf b m) 7 [107] = Some (2%Z, 0, mkPos 0 0) /\
+  bkt_get_mem (gc_record_finish_gen true cf b m) 7 [107] = Some (2%Z, 0, mkPos 2 0).
+Proof. exact unconditional_repoint_loses. Qed.
+Print Assumptions C05_unconditional_repoint_refuted.
+
+Theorem C05_forced_table_update_refuted :
+  let newer := mkHI 7 2 0 2 0 [107] in
+  let moved := mkHI 7 0 0 1 0 [107] in
+  ct_get (ct_cas_gen false [newer] moved true) 7 [107] = Some moved /\
+  ct_get (ct_cas_gen true [newer] moved true) 7 [107] = Some newer.
+Proof. exact forced_table_update_loses. Qed.
+Print Assumptions C05_forced_table_update_refuted.
